@@ -9,6 +9,7 @@ from collections import deque
 from typing import TYPE_CHECKING
 from typing import Deque
 from typing import Iterable
+from typing import List
 from typing import Tuple
 
 from .exceptions import JSONPathRecursionError
@@ -80,21 +81,31 @@ class JSONPathRecursiveDescentSegment(JSONPathSegment):
 
     def _visit(self, node: JSONPathNode, depth: int = 1) -> Iterable[JSONPathNode]:
         """Depth-first, pre-order node traversal."""
-        if depth > self.env.max_recursion_depth:
-            raise JSONPathRecursionError("recursion limit exceeded", token=self.token)
+        # An explicit stack, so the configured limit is the only limit and
+        # Python's own recursion limit never gets in the way.
+        stack = [(node, depth)]
 
-        yield node
+        while stack:
+            node, depth = stack.pop()
 
-        if isinstance(node.value, dict):
-            for name, val in node.value.items():
-                if isinstance(val, (dict, list)):
-                    _node = node.new_child(val, name)
-                    yield from self._visit(_node, depth + 1)
-        elif isinstance(node.value, list):
-            for i, element in enumerate(node.value):
-                if isinstance(element, (dict, list)):
-                    _node = node.new_child(element, i)
-                    yield from self._visit(_node, depth + 1)
+            if depth > self.env.max_recursion_depth:
+                raise JSONPathRecursionError(
+                    "recursion limit exceeded", token=self.token
+                )
+
+            yield node
+
+            children: List[JSONPathNode] = []
+            if isinstance(node.value, dict):
+                for name, val in node.value.items():
+                    if isinstance(val, (dict, list)):
+                        children.append(node.new_child(val, name))
+            elif isinstance(node.value, list):
+                for i, element in enumerate(node.value):
+                    if isinstance(element, (dict, list)):
+                        children.append(node.new_child(element, i))
+
+            stack.extend((child, depth + 1) for child in reversed(children))
 
     def _nondeterministic_visit(
         self,
